@@ -445,7 +445,7 @@ def history_loader_rule(ctx, res, rule: str) -> None:
         if not mname.startswith("make"):
             continue
         n += 1
-        bad = [(c, raising[call_name(c)]) for c in calls_in(m.node) if call_name(c) in raising]
+        bad = [(c, raising[nm]) for c in calls_in(m.node) for nm, _, _ in common.callee_names(m.node, c) if nm in raising]
         res.add(rule, f"DataToChange.{mname}|no-disk-lookup", not bad, m.where if not bad else f"{m.unit.rel}:{bad[0][0].lineno}",
                 "resources are rebuilt without looking at the disk" if not bad else
                 f"DataToChange.{mname} calls {ast.unparse(bad[0][0].func)} ({bad[0][1]}): a saved history naturally refers to resources that no longer "
